@@ -113,7 +113,8 @@ inductive WStep (cfg : Cfg) (sh : Shared) : WState → WAct → Shared → WStat
   | fail : WStep cfg sh .failed .fail
       { (sh.setPipe { sh.pipe with cancelled := true }) with err := true } .exitedFailed
   | failSilentFixed : cfg.fixed = true →
-      WStep cfg sh .failedSilent .failSilent (sh.setPipe { sh.pipe with cancelled := true }) .exitedFailed
+      WStep cfg sh .failedSilent .failSilent
+        { (sh.setPipe { sh.pipe with cancelled := true }) with err := sh.err || !sh.cancelled } .exitedFailed
   | failSilent : cfg.fixed = false → WStep cfg sh .failedSilent .failSilent sh .exitedFailed
 
 theorem wstep_sound {cfg : Cfg} {sh sh' : Shared} {w w' : WState} {a : WAct}
